@@ -4041,9 +4041,12 @@ def _search_ties(ctx, ncases, stats):
             continue
         line = d.lineindex
         nat = d.rcell.natoms
+        ncase = stats['ties_cases'] = stats.get('ties_cases', 0) + 1
         for kind, shape in (('mono', 'box'), ('mono', 'cylinder'), ('array', 'array')):
             sm = [0, 0, 0]
             big_ = rng.choice([6, 8, 8, 10, 12, 16]) if nat <= 4 else rng.choice([4, 6, 8])
+            if kind == 'mono' and nat <= 4 and (ncase <= 2 or rng.random() < 0.04):
+                big_ = rng.choice([32, 48, 62, 64])          # a large cross-section (thousands of atoms, long surface rows)
             for q in range(3):
                 sm[q] = rng.choice([1, 1, 2]) if q == line else rng.choice([big_, big_, rng.choice([4, 6, 8])])
             cfg = {'kind': kind, 'sizemults': sm, 'boundarywidth': rng.choice([0.5, 1.0, 1.5, 2.0, 0.25, 3.0])}
@@ -4074,8 +4077,15 @@ def _search_ties(ctx, ncases, stats):
             width = float(cfg['boundarywidth'])
             if not _check_boundary(ctx, np, d2, cfg, base, disl, shape, width, cinfo, lab, kind):
                 return
+            a_ = float(ucell.box.a)
             for w_ in _tie_widths(np, rng, d2, base, disl, shape, nmax=4):
                 pc = dict(cfg, boundarywidth=float(w_), probe=True)
+                q_ = rng.random()
+                if q_ < 0.3 and (w_ / a_) * a_ == w_:
+                    pc['boundarywidth'] = w_ / a_             # the same width in units of the unit cell's a
+                    pc['boundaryscale'] = True
+                elif q_ < 0.4:
+                    pc['boundaryscale'] = False
                 pres = run_config(d2, pc)
                 pinfo = dict(info, cfg=pc)
                 plab = label + ' ' + str(pc)
@@ -4100,7 +4110,7 @@ def search(ctx, broken):
             if (m, n) != (c['m'], c['n']):
                 extra.append(dict(c, m=m, n=n))
     stats = {'mono': 0, 'array': 0, 'refusals': 0, 'refused': 0, 'solver_refused': 0}
-    _search_ties(ctx, 80 if big else 24, stats)
+    _search_ties(ctx, 150 if big else 40, stats)
     for raw in cases + extra:
         _search_case(ctx, _fix_case(raw), raw, 4 if big else 2, stats)
     ctx.extra['c13_search'] = stats
